@@ -1,32 +1,88 @@
 import XModel.RefsLift
 /-!
 # C05 — reported dependencies contain every location an expression reads
+Tie A: the `deps` rows are regenerated from the working tree on every run; the per-run obligation is
+`Generated.tbl.ValidDeps = true` (`decide`), which is closed over the class universe
+`RefsTable.classSlots`: every operand slot of every expression class must have a row saying "visited, a
+set is returned".  The theorems are about the recursive-union model `RefsTable.depsOf` of
+`_get_dependencies` (a slot contributes its child's dependencies iff its row is covered).
 -/
 namespace Properties.C05
 open RefsTable RefsLift
 
-/-- for every tree built from (class, slot) pairs the table covers, the reported dependencies are
-    exactly the refs that occur anywhere inside it -/
-theorem C05_deps_exact (rows : List DepRow) (n : DNode) (h : wellSlotted rows n = true) :
+/-- THE BRIDGE from the per-run obligation to the trees: a table with `ValidDeps = true` covers every
+    declared slot of every class of the universe `RefsTable.classSlots` (all `BinOpExpr` / `UnaryOpExpr`
+    subclasses, `BuiltinRef`, `CallRef`, `ItemRef`, `AttrRef`, `LiteralExpr`), hence every tree of the
+    universe — `InUniverse n`, a decidable property of the tree that does not mention the table: each
+    node's class is in `classSlots` and each child sits in a declared slot — is `wellSlotted`.
+    (Before, `ValidDeps` was "the listed rows are all true and there is one": the one-row table
+    `[("AddExpr","lhs")]` passed and `a + b` was not `wellSlotted`; that table is now rejected, see the
+    examples below and in `XModel/RefsLift.lean`.) -/
+theorem C05_valid_table_covers_universe (f : Full) (h : f.ValidDeps = true) :
+    (∀ cls slot, declared cls slot = true → covered f.deps cls slot = true) ∧
+    (∀ n : DNode, InUniverse n = true → wellSlotted f.deps n = true) :=
+  ⟨covered_of_declared f h, wellSlotted_of_valid f h⟩
+
+/-- for a valid table and every tree of the universe, the reported dependencies are exactly the refs
+    that occur anywhere inside it.  Hypotheses: `ValidDeps` — the per-run obligation, needed (an uncovered
+    slot loses its refs: last example of this file); `InUniverse n` — the tree is made of the library's
+    classes with their operand slots (outside the universe the table says nothing). -/
+theorem C05_deps_exact (f : Full) (hv : f.ValidDeps = true) (n : DNode) (hu : InUniverse n = true) :
+    depsOf f.deps n = leafs n := deps_exact_universe f hv n hu
+
+/-- the same for arbitrary rows, with the hypothesis on rows AND tree together (`wellSlotted`); the
+    statement above is this one composed with `C05_valid_table_covers_universe` -/
+theorem C05_deps_exact_rows (rows : List DepRow) (n : DNode) (h : wellSlotted rows n = true) :
     depsOf rows n = leafs n := deps_exact rows n h
 
-/-- PROJECTION of the validity obligation (no lift): this restates `Full.ValidDeps`: every (class, slot)
-    row of a valid table has `covered` and `returnsSet`.  What coverage means for the values of
-    expressions is `C05_value_depends_only_on_reported`. -/
+/-- PROJECTION of the validity obligation (no lift): this restates the first conjunct of
+    `Full.ValidDeps`: every (class, slot) row of a valid table has `covered` and `returnsSet`.  What
+    coverage means for the values of expressions is `C05_value_depends_only_on_reported`. -/
 theorem C05_valid_covers (f : Full) (h : f.ValidDeps = true) (r : DepRow) (hr : r ∈ f.deps) :
     (r.covered && r.returnsSet) = true := covered_of_valid f h r hr
 
-/-- the semantic statement: for any interpretation `I` of the node classes and every tree over covered
-    (class, slot) pairs, two environments that agree on the reported dependencies give the same value -/
-theorem C05_value_depends_only_on_reported {V : Type} (rows : List DepRow) (I : DSem V) (n : DNode)
+/-- the semantic statement: for a valid table, any interpretation `I` of the node classes and every tree
+    of the universe, two environments that agree on the reported dependencies give the same value.
+    (Generic part: an evaluator that reads the environment only at the leaves depends only on the leaves,
+    `RefsLift.evalD_leafs`; library part: the reported set contains every leaf, which is what `ValidDeps`
+    gives for the trees of the universe.)  Locations are atomic and independent in this model
+    (`env : Nat → V`): no aliasing between `a[3]` and `a[b]`, no owner / prefix structure. -/
+theorem C05_value_depends_only_on_reported {V : Type} (f : Full) (hv : f.ValidDeps = true) (I : DSem V)
+    (n : DNode) (hu : InUniverse n = true) (e1 e2 : Nat → V) (h : ∀ id ∈ depsOf f.deps n, e1 id = e2 id) :
+    evalD I e1 n = evalD I e2 n := value_depends_only_on_reported_universe f hv I n hu e1 e2 h
+
+/-- as the property is worded: whenever changing a location changes the value, that location is reported -/
+theorem C05_changed_location_reported {V : Type} (f : Full) (hv : f.ValidDeps = true) (I : DSem V)
+    (n : DNode) (hu : InUniverse n = true) (env : Nat → V) (k : Nat) (v : V)
+    (hne : evalD I (fun i => if i = k then v else env i) n ≠ evalD I env n) : k ∈ depsOf f.deps n :=
+  changed_location_reported_universe f hv I n hu env k v hne
+
+/-- the two semantic statements for arbitrary rows, hypothesis `wellSlotted rows n` -/
+theorem C05_value_depends_only_on_reported_rows {V : Type} (rows : List DepRow) (I : DSem V) (n : DNode)
     (hw : wellSlotted rows n = true) (e1 e2 : Nat → V) (h : ∀ id ∈ depsOf rows n, e1 id = e2 id) :
     evalD I e1 n = evalD I e2 n := value_depends_only_on_reported rows I n hw e1 e2 h
 
-/-- as the property is worded: whenever changing a location changes the value, that location is reported -/
-theorem C05_changed_location_reported {V : Type} (rows : List DepRow) (I : DSem V) (n : DNode)
+theorem C05_changed_location_reported_rows {V : Type} (rows : List DepRow) (I : DSem V) (n : DNode)
     (hw : wellSlotted rows n = true) (env : Nat → V) (k : Nat) (v : V)
     (hne : evalD I (fun i => if i = k then v else env i) n ≠ evalD I env n) : k ∈ depsOf rows n :=
   changed_location_reported rows I n hw env k v hne
+
+/-- non-vacuity of the universe statements: `RefsLift.sample` passes `ValidDeps`, the tree
+    `f(a[b], -c, k = round(d.x, e)) + 1` (general call with two positional and one keyword argument,
+    computed key, attribute, builtin with parameter, literal node) is in the universe; changing location 2
+    (the computed key `b`) changes the value, and 2 is reported -/
+example : 2 ∈ depsOf RefsLift.sample.deps universeNode :=
+  C05_changed_location_reported RefsLift.sample sample_valid_deps sumSem universeNode (by decide)
+    (fun _ => 1) 2 10 (by decide)
+example : depsOf RefsLift.sample.deps universeNode = [6, 1, 2, 3, 4, 5] := by decide
+/-- the strengthened test rejects the degenerate tables: one row; everything but `CallRef`; a listed but
+    unvisited slot (the shape of D6) -/
+example : ({ RefsLift.sample with deps := [⟨"AddExpr", "lhs", true, true⟩] } : Full).ValidDeps = false := by decide
+example : ({ RefsLift.sample with deps := RefsLift.sample.deps.filter (fun r => r.cls != "CallRef") } : Full).ValidDeps
+    = false := by decide
+example : ({ RefsLift.sample with deps := (RefsLift.sample.deps.map
+    (fun r => if r.cls = "BuiltinRef" && r.slot = "param" then { r with covered := false } else r)) } : Full).ValidDeps
+    = false := by decide
 
 /-- non-vacuity: changing location 2 changes the value of a tree over covered slots, and 2 is reported -/
 example : wellSlotted depRowsOk depNode = true ∧
